@@ -6,7 +6,7 @@ import re
 from cfg import block_dominators, natural_loops
 from cg import op_local, peel
 from core import Finding, RuleResult, view
-from dataflow import forward_taint
+from dataflow import forward_taint, forward_taint_fields
 from prov import Prov, expand_var
 
 WIDTH = {"read_le_u16": 2, "read_le_u32": 4, "read_le_u64": 8, "write_le_u16": 2, "write_le_u32": 4, "write_le_u64": 8}
@@ -264,7 +264,7 @@ def walk(ctx, f, kind):
                         if not nxt:
                             break
                         cur = nxt
-                tainted = forward_taint(f, seeds, through_calls=True)
+                tainted = forward_taint_fields(f, seeds)
                 # a payload pushed into a local container taints that container
                 grew = True
                 while grew:
@@ -278,7 +278,7 @@ def walk(ctx, f, kind):
                                         if st["s"] == "assign" and st["place"]["local"] == r0 and st["rv"]["r"] == "ref":
                                             tl = st["rv"]["place"]["local"]
                                             if tl not in tainted:
-                                                tainted |= forward_taint(f, {tl}, through_calls=True)
+                                                tainted |= forward_taint_fields(f, {tl})
                                                 grew = True
                 hits = [fn_ for o, fn_ in zip(final_agg["ops"], final_agg["fields"]) if o["k"] in ("copy", "move") and o["place"]["local"] in tainted]
                 if len(hits) == 1:
